@@ -52,10 +52,64 @@ def tDup : GoType := .struct "Dup" [("A", "", tInt), ("B", "a", tInt)]
 def tArr : GoType := .struct "Arr" [("A", "", .array 3 tInt)]
 def tIMap : GoType := .struct "IMap" [("M", "", .imap .string)]
 
+/-! ### named and self-referential types (phase 2) -/
+
+/-- type UList struct { V int; Next *UList } -/
+def tList : GoType := .struct "List" [("V", "", tInt), ("Next", "", .ptr (.ref "List"))]
+
+/-- type UTree struct { Name string; Kids []UTree; M map[string]*UTree; Up **UTree `struct:"up"` } -/
+def tTree : GoType := .struct "Tree" [
+  ("Name", "", .string), ("Kids", "", .slice (.ref "Tree")), ("M", "", .map (.ptr (.ref "Tree"))),
+  ("Up", "up", .ptr (.ptr (.ref "Tree")))]
+
+/-- mutually recursive pair: type UA struct { B *UB; N int }; type UB struct { A *UA; S string; As []UA } -/
+def tA : GoType := .struct "A" [("B", "", .ptr (.ref "B")), ("N", "", tInt)]
+def tB : GoType := .struct "B" [("A", "", .ptr (.ref "A")), ("S", "", .string), ("As", "", .slice (.ref "A"))]
+
+/-- recursive slice / map types: type URL []URL; type URM map[string]URM -/
+def tRL : GoType := .named "RL" (.slice (.ref "RL"))
+def tRM : GoType := .named "RM" (.map (.ref "RM"))
+
+/-- a self-referential type that must be refused, and one that has only seen it:
+type UBadA struct { B *UBadB; Bad [3]int }; type UBadB struct { A *UBadA; X int } -/
+def tBadA : GoType := .struct "BadA" [("B", "", .ptr (.ref "BadB")), ("Bad", "", .array 3 tInt)]
+def tBadB : GoType := .struct "BadB" [("A", "", .ptr (.ref "BadA")), ("X", "", tInt)]
+
+/-- named scalars, slices, maps, pointers -/
+def tMyInt : GoType := .named "MyInt" (.int .i32)
+def tMyStr : GoType := .named "MyStr" .string
+def tMyBool : GoType := .named "MyBool" .bool
+def tMyF : GoType := .named "MyF" .float64
+def tMyU8 : GoType := .named "MyU8" (.int .u8)
+def tStrs : GoType := .named "Strs" (.slice .string)
+def tMyInts : GoType := .named "MyInts" (.slice (.ref "MyInt"))
+def tM : GoType := .named "M" (.map (.ref "MyInt"))
+def tMAny : GoType := .named "MAny" (.map .ifc)
+def tAnys : GoType := .named "Anys" (.slice .ifc)
+def tPInt : GoType := .named "PInt" (.ptr tInt)
+def tMyAny : GoType := .named "MyAny" .ifc
+def tMyIn : GoType := .named "MyIn" (.ref "In")          -- type UMyIn UIn: a struct type under a second name
+def tKM : GoType := .named "KM" (.map tInt)              -- type UKM map[UMyStr]int: a named string key is fine
+def tKMS : GoType := .named "KMS" (.map (.ptr (.ref "In")))   -- type UKMS map[UMyStr]*UIn: through the reflection map unfolder
+
+/-- a struct with fields of the named types -/
+def tNamed : GoType := .struct "Named" [
+  ("I", "", .ref "MyInt"), ("S", "", .ref "MyStr"), ("B", "", .ref "MyBool"), ("F", "", .ref "MyF"),
+  ("L", "", .ref "Strs"), ("Is", "", .ref "MyInts"), ("M", "", .ref "M"), ("A", "", .ref "MAny"),
+  ("P", "", .ref "PInt"), ("PI", "", .ptr (.ref "MyInt")), ("LI", "", .slice (.ref "MyInt")),
+  ("MI", "", .map (.ref "MyU8")), ("Ay", "", .ref "MyAny"), ("In", ",inline", .ref "MyIn"),
+  ("K", "", .ref "KM"), ("LL", "", .slice (.ref "Strs"))]
+
 def structTable : StructTable
   | "In" => some tIn | "In2" => some tIn2
   | "S1" => some tS1 | "S2" => some tS2 | "S3" => some tS3
   | "BadInline" => some tBadInline | "Dup" => some tDup | "Arr" => some tArr | "IMap" => some tIMap
+  | "List" => some tList | "Tree" => some tTree | "A" => some tA | "B" => some tB
+  | "RL" => some tRL | "RM" => some tRM | "BadA" => some tBadA | "BadB" => some tBadB
+  | "MyInt" => some tMyInt | "MyStr" => some tMyStr | "MyBool" => some tMyBool | "MyF" => some tMyF
+  | "MyU8" => some tMyU8 | "Strs" => some tStrs | "MyInts" => some tMyInts | "M" => some tM
+  | "MAny" => some tMAny | "Anys" => some tAnys | "PInt" => some tPInt | "MyAny" => some tMyAny
+  | "MyIn" => some tMyIn | "KM" => some tKM | "KMS" => some tKMS | "Named" => some tNamed
   | _ => none
 
 end SF.Unf
